@@ -84,7 +84,7 @@ def main():
                 "name": "pyvc",
                 "path": "vf/",
                 "serves_properties": sorted(CHECKS),
-                "kind_free_text": "Python ast -> z3 verification-condition generator (forward symbolic execution of the real FunctionDefs in /repo, loops cut at sidecar invariants, calls replaced by callee contracts); discharge with z3 5.1 (python wheel), /usr/bin/cvc5 and /usr/bin/z3 as fall-backs; lemma hints proved in Lean 4 + Mathlib; counter-models replayed on the real code under /venv/bin/python",
+                "kind_free_text": "Python ast -> z3 verification-condition generator (forward symbolic execution of the real FunctionDefs in /repo, loops cut at sidecar invariants, calls replaced by callee contracts); discharge with z3 5.1 (python wheel), /usr/bin/cvc5 and /usr/bin/z3 as fall-backs; arithmetic / summation lemmas are themselves lemma VCs proved by the same solvers (induction steps stated explicitly; Lean is not used); counter-models replayed on the real code under /venv/bin/python",
             }
         ],
         "checks": checks,
